@@ -68,8 +68,8 @@ def _unchanged(b, a):
 class Recorder:
     """Wraps the module namespace handed to a base job: records arguments of the QC call and repeats it."""
 
-    def __init__(self, mods, between):
-        self._mods, self._between = mods, between
+    def __init__(self, mods, between, decoy=True):
+        self._mods, self._between, self._decoy = mods, between, decoy
         self.calls = []
 
     def __getattr__(self, modname):
@@ -89,12 +89,69 @@ class Recorder:
                     after = _snapshot((a, k))
                     if rec._between is not None:
                         rec._between(rec._mods)
+                    # the same test with different parameters in between (state that leaks from one call to the next,
+                    # e.g. a mutable default or a module-level cache, would show in the repeated call)
+                    if rec._decoy:
+                        try:
+                            da, dk = _decoy(a), _decoy(k)
+                            f(*da, **dk)
+                        except Exception:
+                            pass
                     r2 = f(*a, **k)
                     g1 = _globals_snapshot(mod)
                     rec.calls.append({"args_unchanged": _unchanged(before, after), "globals_unchanged": g0 == g1})
                     return (r1, r2, rec.calls[-1])
                 return wrapped
         return _M()
+
+
+def _decoy(obj, depth=0):
+    """structurally identical arguments with every numeric *parameter* moved (arrays of data are kept)"""
+    import numpy as np
+    from symex.values import SFloat, SInt, STime, SDelta
+    if isinstance(obj, (snp.ndarray, np.ndarray)):
+        return obj
+    if isinstance(obj, SFloat):
+        return SFloat(obj.nan, obj.v + 977)
+    if isinstance(obj, SInt):
+        return SInt(obj.v + 3)
+    if isinstance(obj, STime):
+        return obj
+    if isinstance(obj, bool) or obj is None or isinstance(obj, str):
+        return obj
+    if isinstance(obj, float):
+        return obj + 977.0
+    if isinstance(obj, int):
+        return obj + 3
+    if isinstance(obj, tuple):
+        return tuple(_decoy(x, depth + 1) for x in obj)
+    if isinstance(obj, list):
+        return [_decoy(x, depth + 1) for x in obj]
+    if isinstance(obj, dict):
+        return {k: _decoy(v, depth + 1) for k, v in obj.items()}
+    return obj
+
+
+def _decoy_missing(obj):
+    import numpy as np
+    from symex.values import SFloat
+    if isinstance(obj, snp.ndarray):
+        if obj._dt.kind == "f":
+            return snp.ndarray.from_list([SFloat.const(float("nan"))] * obj.a.size, "float64").reshape(obj.a.shape)
+        return obj
+    if isinstance(obj, np.ndarray):
+        if obj.dtype.kind == "f":
+            return np.full(obj.shape, np.nan)
+        return obj
+    if isinstance(obj, tuple):
+        return tuple(_decoy_missing(x) for x in obj)
+    if isinstance(obj, list):
+        if obj and all(isinstance(x, (SFloat, float)) or x is None for x in obj):
+            return obj
+        return [_decoy_missing(x) for x in obj]
+    if isinstance(obj, dict):
+        return {k: _decoy_missing(v) for k, v in obj.items()}
+    return obj
 
 
 def _globals_snapshot(mod):
@@ -140,7 +197,8 @@ class Total(Job):
         return S
 
     def invoke(self, mods, S, K):
-        rec = Recorder(mods, _other_call)
+        # the variance comparisons of the std check are non-linear: an extra symbolic call per path is not worth its cost there
+        rec = Recorder(mods, _other_call, decoy=getattr(self.base, "check", None) != "std")
         return self.base.invoke(rec, S, K)
 
     def observe(self, result):
@@ -231,14 +289,75 @@ class _MaskedKit:
     def farray(self, vals, owner="caller"):
         for name in self.arrays:
             arr = getattr(self.S, name)
-            if len(arr) == len(vals) and all(a is b or (a != a and b != b) or (not isinstance(a, Sym) and a == b)
-                                             for a, b in zip(arr, vals)) and len(vals):
+            if vals is arr and len(vals):
                 return self.K.marray(list(vals), list(self.S._mask[name]))
         return self.K.farray(vals)
 
 
+class PreHistory:
+    """module facade: every QC call is preceded by calls of the same function on other inputs (all-missing data of the same
+    shape; shifted parameters), so that state leaking from earlier calls shows up against the base job's own oracle"""
+
+    def __init__(self, mods):
+        self._mods = mods
+
+    def __getattr__(self, modname):
+        mod = getattr(self._mods, modname)
+
+        class _M:
+            def __getattr__(self, fname):
+                f = getattr(mod, fname)
+                if not callable(f) or isinstance(f, type):
+                    return f
+
+                def wrapped(*a, **k):
+                    for dec in (_decoy_missing, _decoy):
+                        try:
+                            f(*dec(a), **dec(k))
+                        except Exception:
+                            pass
+                    return f(*a, **k)
+                return wrapped
+        return _M()
+
+
+class Historied(Job):
+    """the base job's own flag oracle must still hold after an arbitrary-looking call history"""
+    prop = "C01"
+
+    def __init__(self, base):
+        self.base = base
+        self.n = base.n
+        self.name = "after other calls: " + base.name
+        self.max_paths = 4 * getattr(base, "max_paths", 4000)
+        self.max_seconds = getattr(base, "max_seconds", 900)
+
+    def params(self):
+        return self.base.params()
+
+    def declare(self, V):
+        S = self.base.declare(V)
+        if hasattr(self.base, "valid_params"):
+            V.assume(self.base.valid_params(S))
+        return S
+
+    def invoke(self, mods, S, K):
+        return self.base.invoke(PreHistory(mods), S, K)
+
+    def observe(self, result):
+        return self.base.observe(result)
+
+    def holds(self, S, out):
+        return self.base.holds(S, out)
+
+
 def jobs(tier):
     out = [Total(b) for b in base_jobs(tier)]
+    MM = c08.MemberShape
+    hist = [c03.GrossRange(2, True), c09.Spike(3, "average", True, True), c10.RateOfChange(2), c10.Speed(2), c13.Density(2, True, True),
+            c13.Pressure(3), c14.Location(3, "given", True), c11.FlatLine(3, 60), c12.Attenuated(2, "range", True),
+            c08.Climatology(1, [MM("month", True, True)], prop="C01"), c03.ValidRange(2, "float64", True, False)]
+    out += [Historied(b) for b in hist]
     n = 2 if tier == "quick" else 3
     M = c08.MemberShape
     out += [MaskedTotal(c03.GrossRange(n, True), ["x"]), MaskedTotal(c03.ValidRange(n, "float64", True, False), ["x"]),
